@@ -1146,6 +1146,38 @@ fn reparse_item(outer: proc_macro2::TokenStream, body: proc_macro2::TokenStream)
     }
 }
 
+/// the constants of the first member of definition `T` in `to_rust_keep_names` of the re-parsed definition
+/// (what `expand` works on): `n (name value)*`, or `-1` when to_rust_keep_names panics / `T` is missing
+fn reparsed_rust_constants(o: &mut Vec<I>, asn: &asn1rs_model::proc_macro::AsnModelType) {
+    let def = Definition("T".to_string(), asn.clone());
+    let rust = crate::catch(|| {
+        silenced(|| {
+            let model: Model<asn1rs_model::proc_macro::AsnModelType> =
+                Model { name: "__proc_macro".to_string(), definitions: vec![def], ..Default::default() };
+            model.to_rust_keep_names()
+        })
+    });
+    let Ok(rust) = rust else {
+        o.push(-1);
+        return;
+    };
+    let consts: Option<Vec<(String, String)>> = rust.definitions.iter().find(|d| d.0 == "T").map(|d| match &d.1 {
+        Rust::Struct { fields, .. } => fields.first().map(|f| f.constants().to_vec()).unwrap_or_default(),
+        Rust::TupleStruct { constants, .. } => constants.clone(),
+        _ => Vec::new(),
+    });
+    match consts {
+        Some(cs) => {
+            o.push(cs.len() as I);
+            for (n, v) in &cs {
+                p_str(o, n);
+                o.push(v.parse::<I>().unwrap_or(-999_999));
+            }
+        }
+        None => o.push(-1),
+    }
+}
+
 fn op_3413_header(rd: &mut Rd) -> Vec<I> {
     use asn1rs_model::asn::Type;
     use asn1rs_model::rust::{DataVariant, Field, PlainEnum};
@@ -1253,7 +1285,8 @@ fn op_3413_field(ctx: I, rd: &mut Rd) -> Vec<I> {
     if !dump_tokens(&mut out, inner) {
         return vec![1, 7];
     }
-    let member = reparse_item(outer, body).and_then(|asn| match asn.r#type {
+    let whole = reparse_item(outer, body);
+    let member = whole.clone().and_then(|asn| match asn.r#type {
         Type::Sequence(c) if ctx == 1 => c.fields.into_iter().next().map(|f| f.role),
         Type::Choice(c) if ctx == 2 => c.variants().next().map(|v| asn1rs_model::proc_macro::AsnModelType {
             tag: v.tag,
@@ -1281,6 +1314,9 @@ fn op_3413_field(ctx: I, rd: &mut Rd) -> Vec<I> {
                         }
                     }
                     _ => o.push(0),
+                }
+                if let Some(w) = &whole {
+                    reparsed_rust_constants(&mut o, w);
                 }
                 out.extend(o);
             } else {
